@@ -173,7 +173,7 @@ func runC11(c *Ctx) {
 
 // c11SwallowAudited: callers that legitimately carry on after a failure of a context-polling callee.
 var c11SwallowAudited = map[string]string{
-	"(*parser.Parser).parseWithRecovery|parseStatement": "recovery mode records the error, resynchronises and goes on by design; it is entered without a context (ParseWithRecovery takes none and p.ctx is nil there), so the error cannot be a cancellation (read 2026-09-27)",
+	"(*parser.Parser).parseWithRecovery|*": "recovery mode records the error, resynchronises and goes on by design; it is entered without a context (ParseWithRecovery takes none and p.ctx is nil there), so the error cannot be a cancellation (read 2026-09-27)",
 }
 
 // c11Loops: the two entry loops poll on every iteration.
@@ -185,7 +185,7 @@ func c11Loops(c *Ctx, p *core.Prog, ep *errProv) {
 		for _, b := range fn.Blocks {
 			for _, in := range b.Instrs {
 				if call, ok := in.(*ssa.Call); ok {
-					if callee := call.Call.StaticCallee(); callee != nil && callee.Name() == "parseStatement" {
+					if isStatementParser(call.Call.StaticCallee(), 0) {
 						stmtCall = call
 					}
 				}
@@ -479,4 +479,35 @@ func c11Residue(c *Ctx, p *core.Prog) {
 	if nfn < 3 {
 		r.Fatal("anchor not found: statement loops calling ast.NewAST() (found %d)", nfn)
 	}
+}
+
+// isStatementParser: parseStatement itself, or a thin wrapper around it (a loop-free method of *Parser that calls it,
+// e.g. one that resets per-statement state first).
+func isStatementParser(f *ssa.Function, depth int) bool {
+	if f == nil || f.Blocks == nil || depth > 2 {
+		return false
+	}
+	if f.Name() == "parseStatement" {
+		return true
+	}
+	if f.Signature.Recv() == nil {
+		return false
+	}
+	for _, b := range f.Blocks {
+		for _, s := range b.Succs {
+			if s.Dominates(b) {
+				return false // has a loop
+			}
+		}
+	}
+	for _, b := range f.Blocks {
+		for _, in := range b.Instrs {
+			if call, ok := in.(*ssa.Call); ok {
+				if g := call.Call.StaticCallee(); g != nil && g != f && g.Signature.Recv() != nil && isStatementParser(g, depth+1) {
+					return true
+				}
+			}
+		}
+	}
+	return false
 }
